@@ -23,8 +23,9 @@ type c11Ref struct {
 	Target   int    `json:"target"` // file index, -1: intentionally missing
 	IfExists bool   `json:"if_exists,omitempty"`
 	With     string `json:"with,omitempty"`
-	With2    string `json:"with2,omitempty"`   // a second pair (wv2)
-	WithSv   string `json:"with_sv,omitempty"` // a pair named like the includer's own private variable sv
+	With2    string `json:"with2,omitempty"`          // a second pair (wv2)
+	With2Ref bool   `json:"with2_reads_wv,omitempty"` // ... written wv2=wv: it reads the includer's wv, not the first pair's
+	WithSv   string `json:"with_sv,omitempty"`        // a pair named like the includer's own private variable sv
 	Only     bool   `json:"only,omitempty"`
 	// WithNil: the pair is written wv=nl - its value is nil. The pair still counts: the included
 	// template sees an empty wv, not the includer's
@@ -440,6 +441,7 @@ func c11Finish(tp *Tapes, sp *c11Spec) {
 				}
 				if ref.With != "" && g.Draw(2) == 1 {
 					ref.With2 = fmt.Sprintf("V%d_%d", i, r)
+					ref.With2Ref = g.Draw(3) == 0
 				}
 				if ref.With != "" && g.Draw(3) == 0 {
 					ref.WithSv = fmt.Sprintf("P%d_%d", i, r) // the pair must win over the includer's own sv
@@ -497,7 +499,9 @@ func c11RefText(ref c11Ref, k int) string {
 	}
 	if ref.With != "" {
 		tail += fmt.Sprintf(` with wv="%s"`, ref.With)
-		if ref.With2 != "" {
+		if ref.With2Ref {
+			tail += " wv2=wv"
+		} else if ref.With2 != "" {
 			tail += fmt.Sprintf(` wv2="%s"`, ref.With2)
 		}
 		if ref.WithSv != "" {
@@ -760,7 +764,14 @@ func (r *c11Ref2) execRefs(n *c11Node, f c11File, execName string, env c11Env, b
 		} else if ref.WithNil {
 			sub.wv = ""
 		}
-		if ref.With2 != "" {
+		if ref.With2Ref {
+			// pairs are evaluated in the includer's scope at the include site - which is inside the
+			// inner with block, if there is one
+			sub.wv2 = env.wv
+			if ref.InnerSv != "" {
+				sub.wv2 = "w" + ref.InnerSv
+			}
+		} else if ref.With2 != "" {
 			sub.wv2 = ref.With2
 		}
 		if ref.WithSv != "" {
